@@ -330,7 +330,9 @@ def real_scan(base, root, mp, **kw):
         if chdir is not None:
             cwd = os.getcwd()
             os.chdir(chdir)
-        arch = get_evaluable_architecture(rp, mpp, **kw)
+        arch = rules.cpu_limited(lambda: get_evaluable_architecture(rp, mpp, **kw), 20)
+    except rules.EvaluationTimeout as e:
+        return ("ERR", "NonTermination: the scan gave " + str(e), None)
     except Exception as e:  # noqa: BLE001
         return ("ERR", type(e).__name__ + ": " + str(e)[:200] + (f" [paths spelt: {SPELLING_NAMES[k]}]" if k in SPELLING_NAMES else ""), None)
     finally:
